@@ -10,6 +10,8 @@ Statements:  ["assign", dom, target, expr] | ["if", [[cond, [stmts]]...], else|N
              | ["print", dom, chunks] | ["assert", dom, cond, chunks|None, "assert"|"assume"]
 Targets / expressions: see dsim/refint.py.
 """
+from json import dumps as json_dumps
+
 from .refint import shape_of
 
 __all__ = ["gen_program", "build", "Built"]
@@ -176,6 +178,39 @@ class _Gen:
             width = r.randint(0, min(4, w + 1))
             stride = r.choice([1, width]) if width else 1
             t = ["part", ["sig", si], self.explicit_unsigned(readable), width, stride]
+        elif k < 0.9 and n > 0:
+            # array of chunks of unrelated widths / signedness with the same owner (this chunk among them), optionally addressed
+            # through a slice of the proxy: bits that fall outside a narrow element must be dropped
+            others = [c for c in all_owned if c[0] != si and c[2] > c[1]]
+            r.shuffle(others)
+            seen = {si}
+            elems = [base]
+            for c in others:
+                if c[0] in seen:
+                    continue
+                seen.add(c[0])
+                cw = self.sigs[c[0]]["width"]
+                elems.append(["sig", c[0]] if (c[1] == 0 and c[2] == cw) else ["slice", ["sig", c[0]], c[1], c[2]])
+                if len(elems) == 4:
+                    break
+            if len(elems) in (2, 4) or len(elems) == 3:
+                if len(elems) == 3:
+                    elems = elems[:2]
+                r.shuffle(elems)
+                kbits = 2 if len(elems) == 4 else 1
+                idx = self.explicit_unsigned(readable, maxw=kbits)
+                if shape_of(idx, self.sigs)[0] > kbits:
+                    idx = ["slice", idx, 0, kbits]
+                elif shape_of(idx, self.sigs)[0] < kbits:
+                    # (an index too narrow to reach every element also narrows the proxy: keep it exactly kbits wide)
+                    idx = ["cat", [idx, ["const", 0, kbits - shape_of(idx, self.sigs)[0], False]]]
+                t = ["array", elems, idx]
+                maxw = max(shape_of(e, self.sigs)[0] for e in elems)
+                if r.random() < 0.6:
+                    a = r.randrange(0, maxw)
+                    t = ["slice", t, a, r.randint(a + 1, maxw)]
+            else:
+                t = base
         elif k < 0.94:
             # array of same-shaped whole signals with the same owner
             sh = (self.sigs[si]["width"], self.sigs[si]["signed"])
@@ -320,8 +355,8 @@ def gen_program(rng, opts=None):
                 stmts.append(["assign", dom, t, rhs])
                 if dom not in m["stmt_domains"]:
                     m["stmt_domains"].append(dom)
-                if in_fsm is None and t[0] in ("sig", "slice") and shape_of(t, sigs)[0] > 0:
-                    emitted.append((t, dom))
+                if in_fsm is None and t[0] in ("sig", "slice") and shape_of(t, sigs)[0] > 0 and "array" not in json_dumps(t):
+                    emitted.append((t, dom))       # (a slice of an Array proxy may address no bit at all: nothing to conflict with)
                 if in_fsm is None and emitted and o.get("refusals", True) and r.random() < 0.08:
                     # fault: a statement the DSL must refuse (same bits, another domain of this module), caught by the
                     # caller, in the middle of building the module; the design must be as if it had never been attempted
@@ -549,7 +584,7 @@ def _expr_sigs(e):
             return [e[1]]
         if e and e[0] == "const":
             return []
-        for x in e[1:]:
+        for x in (e[1:] if (e and isinstance(e[0], str)) else e):      # (a bare list of sub-expressions has no operator name)
             if isinstance(x, list):
                 out += _expr_sigs(x)
     return out
@@ -562,9 +597,11 @@ def _restrict_target(t, readable, sigs):
             return ["part", t[1], ["const", 1, 2, False], t[3], t[4]]
     if t[0] == "array":
         if any(s not in readable for s in _expr_sigs(t[2])):
-            return ["array", t[1], ["const", 0, 1, False]]
+            return ["array", t[1], ["const", 0, max(1, (len(t[1]) - 1).bit_length()), False]]
     if t[0] in ("as_signed", "as_unsigned"):
         return [t[0], _restrict_target(t[1], readable, sigs)]
+    if t[0] == "slice" and t[1][0] == "array":
+        return ["slice", _restrict_target(t[1], readable, sigs), t[2], t[3]]
     return t
 
 
@@ -624,6 +661,9 @@ def build(prog):
         if op == "~":
             return ~ex(e[1])
         if op == "slice":
+            if e[1][0] == "array":
+                from amaranth.hdl import Value
+                return Value.cast(ex(e[1]))[e[2]:e[3]]      # a slice of the proxy as a whole (not of each element)
             return ex(e[1])[e[2]:e[3]]
         if op == "cat":
             return Cat(*[ex(p) for p in e[1]])
